@@ -141,10 +141,11 @@ def tokenise(rows, text):
             else:
                 break
         else:
-            sp = longest_of_rows(rows, ('left', 'right', 'infix'), text, pos)
+            sp = longest_of_rows(rows, ('left', 'right', 'infix', 'postfix'), text, pos)
             if sp is None:
                 break
-            toks.append(['o', MSPELL[sp]]); offs.append(pos); pos += len(sp); want_operand = True
+            is_postfix = any(a == 'postfix' and row_match(names, text, pos) == sp for a, names in rows)
+            toks.append(['o', MSPELL[sp]]); offs.append(pos); pos += len(sp); want_operand = not is_postfix
     offs.append(pos)
     return toks, offs
 
@@ -184,6 +185,8 @@ def mconv(v):
             return f'(inf {mconv(fs[0])} {op(fs[1])} {mconv(fs[2])})'
         if k == 1:
             return f'(pre {op(fs[0])} {mconv(fs[1])})'
+        if k == 2:
+            return f'(post {mconv(fs[0])} {op(fs[1])})'
     return None
 
 
@@ -279,6 +282,16 @@ def run(R):
         info[gid] = (None, 'multi')
         multi[gid] = rows
         gid += 1
+    # a postfix operator and a LONGER infix operator of another row matching at the same place: the longest match wins
+    for rows in ([('postfix', ['!']), ('left', ['!='])], [('postfix', ['-']), ('left', ['->', '+'])], [('left', ['=']), ('postfix', ['+']), ('left', ['++'])],
+                 [('postfix', ['<']), ('infix', ['<=', '<>'])]):
+        d = 'start = ' + render_table(rows, '/\\d/') + '\n'
+        ops = [c for _, names in rows for c in names]
+        tx = ['1', '1' + ops[0], '1' + ops[-1] + '2', '1' + ops[0] + ops[-1] + '2', '1' + ops[-1] + '2' + ops[0], '1' + ops[0] + ops[0], '1' + ops[-1]]
+        jobs.append((gid, d, sorted(set(tx)), {'stratum': 'postfix-vs-infix'}))
+        info[gid] = (None, 'multi')
+        multi[gid] = rows
+        gid += 1
     R.extra['tables'] = len(tables)
     R.extra['multichar_tables'] = len(multi)
     for i in range(0, len(jobs), 300):
@@ -333,7 +346,10 @@ def run(R):
                     got = ix
                 R.count('longest-spelling', (r['desc'], text), nontrivial=got != 'none')
                 if got != pratt_s:
-                    R.counterexample('longest-spelling', 'longest-operator-across-rows', {'grammar': r['desc'], 'text': text, 'tokens': toks}, pratt_s, got)
+                    mech = 'longest-operator-across-rows'
+                    if any(a == 'postfix' for a, _ in multi[r['gid']]):
+                        mech = 'postfix-preferred-over-longer-infix'
+                    R.counterexample('longest-spelling', mech, {'grammar': r['desc'], 'text': text, 'tokens': toks}, pratt_s, got)
                 else:
                     R.traces += 1
         for r, o in zip(meta, core.run_driver(reqs, raw=True)):
